@@ -313,6 +313,41 @@ def gen_case(rng, cid, mode, focus=None, nblocks=None, maxtx=40):
     return g.finish()
 
 
+def gen_verifier_family(rng, cid):
+    """Verifier state across blocks: 2-4 blocks of 4-12 transfers on ONE ChainService; some blocks carry a
+    signature by the wrong key at the first / a middle / the last position (the block must be refused and
+    nothing of it applied), all-valid blocks in between must be accepted; several worker counts."""
+    r = rng
+    users = [10, 11, 12, 13]
+    c = {"id": cid, "mode": "chain", "version": r.choice([0, 2, 4]), "zerofee": False, "gasprice": str(50 * 10 ** 9), "coinbase": 30,
+         "cids": {}, "ckeys": [], "ids": [1, 2, 3, 30] + users, "names": [2], "blocks": [], "tag": "verifier",
+         "fund": [[str(u), str(100 * AERGO)] for u in users], "workers": r.choice([0, 1, 2, 4, 8])}
+    nonce = {u: 0 for u in users}
+    nb = r.randint(2, 4)
+    bad_first = True
+    for b in range(nb):
+        n = r.randint(4, 12) + (2 * b if b else 0)          # later blocks tend to be at least as long
+        local = dict(nonce)
+        txs = []
+        for _ in range(n):
+            u = r.choice(users)
+            local[u] += 1
+            txs.append(T("transfer", u, local[u], to=r.choice(users), amount=str(r.choice([1, 1000, AERGO]))))
+        bad = (b == 0 and bad_first) or r.random() < 0.5
+        if b == nb - 1 and not any(blk.get("bad") for blk in c["blocks"]):
+            bad = True
+        if bad:
+            k = len(txs)
+            pos = r.choice([[0], [k - 1], [k // 2], [0, k - 1], [k - 2], [1]])
+            for p_ in pos:
+                t = txs[p_]
+                t["signer"] = r.choice([u for u in users if u != t["from"]] + [0])
+        else:
+            nonce = local
+        c["blocks"].append({"txs": txs, "bad": bad})
+    return c
+
+
 # ------------------------------------------------------------------ engine
 def run_engine(ctx, binpath, cases, tag):
     fin = os.path.join(ctx.workdir, tag + ".in")
@@ -572,10 +607,12 @@ def predicates(c, obs):
     executed = {}          # account -> list of nonces executed along the accepted chain
     hashes = set()
     blk_exec, blk_hashes, blk_start = {}, [], prev
+    blk_all_ok = []
     for o in obs[1:]:
         if o["k"] == "tx":
             t = tx_of(c, o)
             d = o["d"]
+            blk_all_ok.append(o["res"] != "rej")
             if o["res"] == "rej":
                 if d != prev:
                     fails.append(("C03", "rejected-residue", "a rejected transaction changed the visible state", {"tx": t, "err": o.get("errs")}))
@@ -614,6 +651,7 @@ def predicates(c, obs):
             if o.get("aborted"):
                 prev = blk_start
                 blk_exec, blk_hashes = {}, []
+                blk_all_ok = []
                 continue
             sb, sa = int(o["sumBefore"]), int(o["sumAfter"])
             if o["accepted"]:
@@ -649,6 +687,19 @@ def predicates(c, obs):
                 prev = o["d"]
                 blk_start = prev
             else:
+                if c["mode"] == "chain":
+                    inc = [c["blocks"][o["blk"]]["txs"][i] for i in (o.get("included") or [])]
+                    allok = all(r_ok for r_ok in blk_all_ok)
+                    def signer_ok(t):
+                        want = t["from"]
+                        if 200 <= t["from"] < 300:
+                            want = blk_start["names"].get(str(t["from"]), [0, 0])[0]
+                        if t["replayof"]:
+                            t = dict(t, signer=all_txs[t["replayof"] - 1]["signer"])
+                        return t["signer"] == want
+                    if inc and allok and len(inc) == len(c["blocks"][o["blk"]]["txs"]) and all(signer_ok(t) for t in inc):
+                        fails.append(("C04", "valid-rejected", "a block whose transactions all execute and are all correctly signed was refused: " + str(o.get("addErr")),
+                                      {"block": o["blk"]}))
                 if sa != sb:
                     fails.append(("C01", "supply-rejected-block", "sum of balances changed over a rejected block", {"block": o["blk"]}))
                 if o.get("unchanged") is False:
@@ -657,6 +708,7 @@ def predicates(c, obs):
                     fails.append(("C03", "failed-block-residue", "a rejected block changed the visible state", {"block": o["blk"]}))
                 prev = blk_start
             blk_exec, blk_hashes = {}, []
+            blk_all_ok = []
     # executed nonces contiguous from the initial nonce
     for a, ns in executed.items():
         n0 = init["d"]["acc"].get(str(a), {"n": 0})["n"]
@@ -840,6 +892,17 @@ def corpus_cases(pid):
         case("chain", [{"txs": [ok(1), ok(2)]}, {"txs": [dict(ok(1), replayof=1, force=True)]}, {"txs": [ok(3)]}], "replay")
         case("chain", [{"txs": [ok(1), dict(ok(2), chainok=False, force=True)]}], "chainid")
         case("chain", [{"txs": [ok(1), dict(ok(2), signer=11)]}], "forged")
+        # verifier state across blocks: block X refused for an EARLY bad signature while more txs are queued,
+        # then block Y (at least as long) with a forged signature NEAR THE END, then the valid version of Y
+        def tr(u, n, to=13, amount="1000", **kw):
+            return T("transfer", u, n, to=to, amount=amount, **kw)
+        X = [tr(10, 1, signer=11), tr(11, 1), tr(12, 1), tr(11, 2), tr(12, 2), tr(11, 3), tr(12, 3), tr(11, 4)]
+        Y = [tr(10, 1), tr(11, 1), tr(12, 1), tr(11, 2), tr(12, 2), tr(10, 2), tr(11, 3), tr(12, 3), tr(10, 3),
+             tr(11, 4, to=10, amount=str(1000 * AERGO), signer=10), tr(12, 4)]
+        Yok = [dict(t, signer=t["from"], amount="1000") for t in Y]
+        for w in (0, 1, 4):
+            case("chain", [{"txs": json.loads(json.dumps(X))}, {"txs": json.loads(json.dumps(Y))}, {"txs": json.loads(json.dumps(Yok))}],
+                 "verifier", workers=w, fund=[[str(u), str(5000 * AERGO)] for u in (10, 11, 12, 13)], ids=[1, 2, 3, 10, 11, 12, 13, 30])
         # sender = a registered NAME: the signature must be the name OWNER's (validator path, real signature workers)
         case("chain", [{"txs": [T("namecreate", 11, 1, name=200, amount=str(AERGO))]},
                        {"txs": [T("transfer", 200, 2, to=10, amount="5", signer=11)]},      # control: owner-signed passes
@@ -892,6 +955,9 @@ def run_check(ctx, pid):
     for i in range(nrand):
         mode = "chain" if i % chain_every == chain_every - 1 else "exec"
         cases.append(gen_case(ctx.rng, len(cases) + 1, mode, FOCUS[pid], maxtx=40))
+    if pid == "C04":
+        for i in range(6 if quick else 120):
+            cases.append(gen_verifier_family(ctx.rng, len(cases) + 1))
     # MULTICALL (receiver = the sender OBJECT, transient contract state) is outside the Ledger model: a few
     # extra cases run on the implementation only (all direct predicates apply, no model comparison)
     for i in range(4 if quick else 60):
